@@ -29,7 +29,7 @@ from fractions import Fraction
 import numpy as np
 
 from .poly import Poly, parr, frac
-from .usets import USet
+from .usets import USet, EXP_SET_KINDS
 from .smt import HarnessError
 
 POLY_ATOMS = ('abs', 'norm1', 'norminf')
@@ -54,7 +54,7 @@ def is_conic(cm, F):
         for c in cons:
             if c.is_atom():
                 k = c.expr.kind
-                if k in SOC_ATOMS:
+                if k in SOC_ATOMS or k in EXP_SET_KINDS:
                     found = True
                 elif k not in POLY_ATOMS:
                     return False
@@ -76,10 +76,28 @@ def hom(p, q, msub):
     return out
 
 
-def persp(cons, names, q, msub, G, H, Q):
-    """Append the perspective of the constraint list `cons` (over `names`) at mass q / moments msub to G (>= 0), H (== 0)
-    and Q (second-order cones as (head, [tails]))."""
+def persp(cons, names, q, msub, G, H, Q, T=None, aux=None):
+    """Append the perspective of the constraint list `cons` (over `names`) at mass q / moments msub to G (>= 0), H (== 0),
+    Q (second-order cones as (head, [tails])) and T (exponential-cone triples (x, y, z): z*exp(x/z) <= y; K_exp is a cone, so the
+    perspective of a membership is the membership of the homogenised triple; existential auxiliaries are scaled with it)."""
     for c in cons:
+        if c.is_atom() and c.expr.kind in EXP_SET_KINDS:
+            if T is None or c.sense != 'le':
+                raise HarnessError('moment form: exponential-cone atom not supported here')
+            from .oracle import exp_normal
+            msub2 = dict(msub)
+
+            def fresh(tag, msub2=msub2):
+                n = '_e%s%d' % (tag, len(aux))
+                aux.append(n)
+                msub2[n] = Poly.var(n)
+                return Poly.var(n)
+            t, g = exp_normal(c.expr, fresh)
+            for tri in t:
+                T.append(tuple(hom(Poly.lift(e), q, msub2) for e in tri))
+            for gg in g:
+                G.append(hom(gg, q, msub2))
+            continue
         if c.is_atom():
             a = c.expr
             if a.k <= 0 or c.sense != 'le':
@@ -125,6 +143,7 @@ def moment_system(cm, F, npieces, scens=None):
     zn = list(o.znames)
     S = list(range(o.ns))
     G, H, Q, names = [], [], [], []
+    T, aux = [], []
     qv, mv = {}, {}
     for s in S:
         for j in range(npieces):
@@ -137,7 +156,7 @@ def moment_system(cm, F, npieces, scens=None):
                 mn = 'm%d_%d_%d' % (s, j, i)
                 names.append(mn)
                 mv[(s, j)][z] = Poly.var(mn)
-            persp(A['supp'][s], zn, qv[(s, j)], mv[(s, j)], G, H, Q)
+            persp(A['supp'][s], zn, qv[(s, j)], mv[(s, j)], G, H, Q, T, aux)
     psub = {'p[%d]' % s: sum((qv[(s, j)] for j in range(npieces)), Poly()) for s in S}
     H.append(sum(psub.values(), Poly()) - 1)
     # probability set: polyhedral (H-representation over p)
@@ -152,8 +171,8 @@ def moment_system(cm, F, npieces, scens=None):
     for scn, cons in A['expt']:
         scale = sum((psub['p[%d]' % s] for s in scn), Poly())
         msub = {'E' + z: sum((mv[(s, j)][z] for s in scn for j in range(npieces)), Poly()) for z in zn}
-        persp(cons, ['E' + z for z in zn], scale, msub, G, H, Q)
-    return dict(vars=names, G=G, H=H, Q=Q, q=qv, m=mv)
+        persp(cons, ['E' + z for z in zn], scale, msub, G, H, Q, T, aux)
+    return dict(vars=names + aux, G=G, H=H, Q=Q, T=T, q=qv, m=mv)
 
 
 def bilinear_value(cm, group, sysm, npieces, ren=None, assign=None):
@@ -181,8 +200,9 @@ def scenario_system(cm, F, s):
     G, H, Q = [], [], []
     names = ['z%d_%d' % (s, i) for i in range(len(zn))]
     msub = {z: Poly.var(n) for z, n in zip(zn, names)}
-    persp(o.amb[F]['supp'][s], zn, Poly.const(1), msub, G, H, Q)
-    return dict(vars=names, G=G, H=H, Q=Q, msub=msub)
+    T, aux = [], []
+    persp(o.amb[F]['supp'][s], zn, Poly.const(1), msub, G, H, Q, T, aux)
+    return dict(vars=names + aux, G=G, H=H, Q=Q, T=T, msub=msub)
 
 
 # ------------------------------------------------------------------ numeric side (candidate counterexamples, replay)
@@ -227,12 +247,17 @@ def worst_moments_ecos(cm, F, group, assign, npieces, sign=1):
             Gm.append(-r)
             hv.append(k)
         qdims.append(1 + len(tl))
+    for tri in sysm.get('T', []):
+        for e in tri:                    # ECOS: (x, y, z) with z*exp(x/z) <= y, rows after the second-order cones
+            r, k = _lin_row(e, idx)
+            Gm.append(-r)
+            hv.append(k)
     Am, bv = [], []
     for h_ in sysm['H']:
         r, k = _lin_row(h_, idx)
         Am.append(r)
         bv.append(-k)
-    dims = dict(l=nl, q=qdims, e=0)
+    dims = dict(l=nl, q=qdims, e=len(sysm.get('T', [])))
     try:
         sol = ecos.solve(-c, csc_matrix(np.array(Gm)), np.array(hv, dtype=float), dims,
                          csc_matrix(np.array(Am)) if Am else None, np.array(bv, dtype=float) if Am else None, verbose=False)
